@@ -219,7 +219,8 @@ def generate(run_seed, cfg):
             "main_path": main_path, "absent": absent, "fault": fault, "obs": obs,
             "bad_utf8": bad_utf8, "ignore_comments": sw.random() < 0.6, "walk": walk,
             "kinds": [stmts[k].kind for k in first_of],
-            "labels": [stmts[k].label for k in first_of], "form": form}
+            "labels": [stmts[k].label for k in first_of], "form": form,
+            "chunk_nstmts": [len(g) for g in groups]}
     return materialise(case)
 
 
@@ -349,6 +350,14 @@ def execute(case):
         return {"events": [["form-mismatch"]], "violations": [], "stats": stats,
                 "nontrivial": False, "state_keys": [],
                 "discarded": "main-text-detected-in-another-source-form-than-the-inlined-text"}
+    # soundness guard: the reference tree must hold at least one statement per source statement.
+    # (fparser silently drops the rest of an execution part after e.g. a labelled DO whose
+    # terminator it does not recognise -- C01/C08's question; such a run is not judged here.)
+    nst = sum(case.get("chunk_nstmts") or [1] * len(lines))
+    if ref_full["outcome"][0] == "ok" and ref_full.get("n_line_items", nst) < nst:
+        return {"events": [["ref-drops-statements"]], "violations": [], "stats": stats,
+                "nontrivial": False, "state_keys": [],
+                "discarded": "reference-tree-drops-statements-of-the-generated-program"}
     if ref_full["outcome"][0] != "ok":
         return {"events": [["ref-rejects", ref_full["outcome"][0]]], "violations": [],
                 "stats": stats, "nontrivial": False, "state_keys": [],
@@ -640,6 +649,8 @@ def _drop_lines(case, lo, hi):
             return None
         r[0], r[1] = ni, nj
     del c["lines"][lo:hi], c["kinds"][lo:hi], c["labels"][lo:hi]
+    if c.get("chunk_nstmts"):
+        del c["chunk_nstmts"][lo:hi]
     # nested runs must still lie strictly inside their parents and siblings stay disjoint
     for r in c["runs"]:
         if r[2] is not None:
